@@ -53,3 +53,10 @@ From Amc.Gen Require SsetGen.
 Theorem C04_insert_is_the_regenerated_one :
   forall cmp N s v, SsetGen.insert_gen cmp (Z.of_nat N) (svec s) (sset_ s) v = SsetTV.out (ss_insert cmp N s v).
 Proof. exact SsetTV.insert_tv. Qed.
+Theorem C04_find_is_the_regenerated_one :
+  forall cmp s k, SsetGen.find_gen cmp (svec s) (sset_ s) k = Z.of_nat (ss_find cmp s k).
+Proof. exact SsetTV.find_tv. Qed.
+Theorem C04_erase_key_is_the_regenerated_one :
+  forall cmp s v, SsetGen.erase_key_gen cmp (svec s) (sset_ s) v =
+    (svec (fst (ss_erase_key cmp s v)), sset_ (fst (ss_erase_key cmp s v)), Z.of_nat (snd (ss_erase_key cmp s v))).
+Proof. exact SsetTV.erase_key_tv. Qed.
